@@ -15,6 +15,7 @@ extern void     sym_tag(const char *name, int c);  /* named fact about the input
 extern void     sym_note(const char *msg, uint64_t v);
 extern void     sym_notef(const char *msg, double v);
 extern void     sym_cover(const char *name);
+extern void     sym_draws_rewind(void);             /* option sym_draws: the raw generator repeats its outputs from the first one */
 extern void     sym_end(void);                      /* end of scenario (does not return) */
 extern int      sym_is_replay(void);
 extern void    *sym_fn(const char *name);           /* address of a file-static library function */
